@@ -268,6 +268,9 @@ class Module:
                 continue
             lm = re.match(r'([\w.$-]+):', ln)
             if lm and not ln.startswith(' '):
+                if cur.label == 'entry' and not cur.insts and len(fn.order) == 1:
+                    fn.blocks[lm.group(1)] = cur          # the entry block with an explicit label: an alias of 'entry'
+                    continue
                 cur = Block(fn, lm.group(1)); fn.blocks[cur.label] = cur; fn.order.append(cur)
                 continue
             s = ln.strip()
@@ -301,7 +304,7 @@ class Module:
         ent = fn.order[0]
         for ins in fn.insts():
             if ins.op == 'phi':
-                ins.incoming = [(v, (l if l in fn.blocks else 'entry')) for v, l in ins.incoming]
+                ins.incoming = [(v, (fn.blocks[l].label if l in fn.blocks else 'entry')) for v, l in ins.incoming]
 
     BINOPS = ('add', 'sub', 'mul', 'sdiv', 'udiv', 'srem', 'urem', 'and', 'or', 'xor', 'shl', 'lshr', 'ashr')
     CASTS = ('bitcast', 'sext', 'zext', 'trunc', 'ptrtoint', 'inttoptr')
